@@ -249,25 +249,36 @@ def check(ctx: Ctx) -> None:
     with ctx.obligation("C16.l", "proxy-forwards-eof-at-once") as ob:
         fsp = ctx.repo.func("gateway_io.serve_proxy_io")
         cfgp = build_cfg(ctx.repo, fsp, Oracle(ctx.repo, fsp))
-        loops = [n for n in ctx.repo.own_nodes(fsp) if isinstance(n, ast.While) and any(isinstance(c, ast.Call) and callee_attr(c) == "from_io" for c in ast.walk(n))]
-        ob.require(len(loops) == 1, "serve_proxy_io: forwarding loop (Message.from_io) not found")
-        breaks = [n for n in cfgp.nodes if isinstance(n.ast, ast.Break) and any(n.ast is x for x in ast.walk(loops[0])) and n.id in cfgp.live()]
-        ob.require(len(breaks) >= 1, "serve_proxy_io: the forwarding loop has no exit")
+        reads = cfg_nodes_with_call(cfgp, lambda c: callee_attr(c) == "from_io")
+        ob.require(len(reads) >= 1, "serve_proxy_io: Message.from_io call not found")
+        # "after EOF": what is reachable from the EOFError handlers of the frame read, minus what can still reach the read (the loop)
+        handlers = [n for n in cfgp.nodes if n.kind == "except" and n.id in cfgp.live() and n.ast.type is not None and "EOFError" in unparse(n.ast.type)]
+        ob.require(len(handlers) >= 1, "serve_proxy_io: no EOFError handler around the frame read")
+
+        def reach(starts):
+            seen, work = set(), list(starts)
+            while work:
+                x = work.pop()
+                if x in seen:
+                    continue
+                seen.add(x)
+                work.extend(m for (m, _l) in cfgp.succ[x])
+            return seen
+        after = reach([h.id for h in handlers])
+        readids = {r.id for r in reads}
+        in_loop = {nid for nid in after if reach([nid]) & readids}
         BLOCKING = {"wait", "join", "waitclose", "receive", "get", "acquire", "sleep", "read", "readline", "waitall", "waitfinish", "communicate"}
-        seen_, work, nafter = set(), [m for b in breaks for (m, _l) in cfgp.succ[b.id]], 0
-        while work:
-            nid = work.pop()
-            if nid in seen_:
-                continue
-            seen_.add(nid)
+        nafter = 0
+        for nid in sorted(after - in_loop):
             node = cfgp.nodes[nid]
-            if node.ast is not None and not any(node.ast is x for x in ast.walk(loops[0])):
-                nafter += 1
-                for c in calls_in_node(node):
-                    if callee_attr(c) in BLOCKING and not any(k.arg == "timeout" for k in c.keywords):
-                        ob.violation(fsp, c, f"after EOF from the sub serve_proxy_io blocks in `{norm(c)[:50]}` before it returns: the initiator does not see the end of a proxied "
-                                             "gateway while the worker process lingers (a direct gateway reports EOF at once)", construct="blocking call after the forwarding loop")
-            work.extend(m for (m, _l) in cfgp.succ[nid])
+            if node.ast is None:
+                continue
+            nafter += 1
+            for c in calls_in_node(node):
+                if callee_attr(c) in BLOCKING and not any(k.arg == "timeout" for k in c.keywords):
+                    ob.violation(fsp, c, f"after EOF from the sub serve_proxy_io blocks in `{norm(c)[:50]}` before it returns: the initiator does not see the end of a proxied "
+                                         "gateway while the worker process lingers (a direct gateway reports EOF at once)", construct="blocking call after the forwarding loop")
+        loops = [reads[0].ast]
         ob.site(fsp, loops[0], "nothing blocks between EOF from the sub and the return of serve_proxy_io", statements_after_loop=nafter)
     # the socket transport's IO class is shipped as class source only: everything it uses at run time must come with it
     from ..report import borrow
